@@ -471,7 +471,8 @@ theorem npReduce_tuple_spec (n : String) (f : List α → α) {d r : Data κ α}
     ∃ names, resolveItems d.dims items = .ok names ∧ names.Nodup ∧ (∀ x ∈ names, x ∈ d.dims) ∧
       r.Consistent ∧ r.dims = d.dims.filter (fun x => x ∉ names) ∧
       r.coords = (d.dims.filter (fun x => x ∉ names)).map d.coord ∧
-      r.hist = d.hist ++ [("numpy." ++ n, ["axis"])] ∧ r.attrs = d.attrs := by
+      r.hist = d.hist ++ [("numpy." ++ n, ["axis"])] ∧ r.attrs = d.attrs ∧
+      ∃ q, d.reduceDims f names = .ok q ∧ r = q.addHist ("numpy." ++ n) ["axis"] := by
   unfold npReduce at hr
   simp only at hr
   split at hr
@@ -496,7 +497,7 @@ theorem npReduce_tuple_spec (n : String) (f : List α → α) {d r : Data κ α}
             subst hr
             have hsub := resolveItems_mem d.dims items names hq
             obtain ⟨hc, hd, hh, ha, hco⟩ := reduceDims_spec f h hnd hsub hq2
-            exact ⟨names, rfl, hnd, hsub, addHist_consistent hc _ _, hd, hco, by simp [addHist, hh], ha⟩
+            exact ⟨names, rfl, hnd, hsub, addHist_consistent hc _ _, hd, hco, by simp [addHist, hh], ha, q, hq2, rfl⟩
 
 end Data
 end Dnp
